@@ -43,6 +43,7 @@ type interpreter struct {
 	cur                *thread // current engine thread (nil when single-threaded)
 	threads            []*thread
 	steps              int64
+	copyCost           int64 // elements moved by append/copy on this path (cost model of vCost)
 	funcsSeen          map[*ssa.Function]bool
 	trace              bool
 	pendingAbort       interface{}
